@@ -303,66 +303,13 @@ def random_cases(acc, enc, n, seed):
     body()
 
 
-class Zygote:
+def Zygote():
     """A process that has imported pvl and this harness and done nothing else; every
     case handed to it runs in a fork of that image, so that the first of a case's
     calls is also the first thing the pvl library does in its process ("the same
     text every time ... within a process" includes the first time)."""
-
-    def __init__(self):
-        import subprocess
-        import sys
-        self.proc = subprocess.Popen(
-            [sys.executable, "-c", "from props import c13; c13.zygote_main()"],
-            stdin=subprocess.PIPE, stdout=subprocess.PIPE)
-
-    def run(self, case):
-        import pickle
-        pickle.dump(case, self.proc.stdin)
-        self.proc.stdin.flush()
-        res = pickle.load(self.proc.stdout)
-        if res[0] == "harness":
-            raise RuntimeError("C13 zygote: " + res[1])
-        return res
-
-    def close(self):
-        try:
-            self.proc.stdin.close()
-            self.proc.wait(timeout=30)
-        except Exception:
-            self.proc.kill()
-
-
-def zygote_main():
-    import os
-    import pickle
-    import sys
-    inp = sys.stdin.buffer
-    out = os.fdopen(os.dup(1), "wb")
-    os.dup2(2, 1)               # nothing the cases print can reach the result pipe
-    while True:
-        try:
-            case = pickle.load(inp)
-        except EOFError:
-            break
-        r, w = os.pipe()
-        pid = os.fork()
-        if pid == 0:
-            os.close(r)
-            try:
-                res = run_case(case)
-            except BaseException as e:          # noqa: B902 - reported, not hidden
-                res = ("harness", f"{type(e).__name__}: {e}")
-            with os.fdopen(w, "wb") as f:
-                pickle.dump(res, f)
-            os._exit(0)
-        os.close(w)
-        with os.fdopen(r, "rb") as f:
-            data = f.read()
-        os.waitpid(pid, 0)
-        res = pickle.loads(data) if data else ("harness", "child wrote nothing")
-        pickle.dump(res, out)
-        out.flush()
+    from vlib.zygote import Zygote as Z
+    return Z("props.c13:run_case")
 
 
 # modules whose statements have to be wrapped inside or next to quoted strings
